@@ -188,6 +188,13 @@ def lean_build_and_audit(ctx, module, theorems, targets=("driver",)):
             ctx.obligations.append((t, False, "forbidden construct in import closure"))
         else:
             ctx.obligations.append((t, True, ax))
+    if not build_ok:
+        # a proof obligation no longer checks: the violation is reported whatever follows.  The executable model
+        # may still build; then the check goes on to search the model and the implementation for a concrete input
+        rc2, _ = run(["lake", "build"] + list(targets), cwd=LEAN, timeout=3600)
+        ctx.coverage["lean_modules"] = closure
+        ctx.coverage["proof_module_broken_driver_builds"] = rc2 == 0
+        return rc2 == 0
     if ctx.tier == "thorough" and build_ok:
         for m in closure:
             rc, out = run(["lake", "env", "leanchecker", m], cwd=LEAN, timeout=3600)
